@@ -3375,3 +3375,152 @@ func calleeName(ci ssa.CallInstruction) string {
 	}
 	return "dynamic"
 }
+
+// ---------------------------------------------------------------------------
+// C16.9: a result that comes with an error is used only after the error was looked at. For every call in the
+// hand-written server packages that returns (…, pointer-like, …, error): each dereference of the pointer-like result
+// (field access, load, interface method call) is dominated by the branch on which the call's error is nil, or by a
+// nil test of the result itself. Dropping the `if err != nil { return err }` after http.NewRequestWithContext keeps
+// compiling; the nil request is dereferenced on a goroutine nobody recovers and the process dies.
+func ruleC16_9(c *Ctx, r *Rep) {
+	nCalls, nDeref := 0, 0
+	isNilCmp := func(cd Cond, v ssa.Value, wantNil bool) bool {
+		bo, ok := cd.V.(*ssa.BinOp)
+		if !ok || !(bo.Op == token.EQL || bo.Op == token.NEQ) {
+			return false
+		}
+		x, y := bo.X, bo.Y
+		if isNilConst(x) {
+			x, y = y, x
+		}
+		if !isNilConst(y) {
+			return false
+		}
+		same := x == v
+		if !same {
+			// the value was spilled into a local that a closure captures: a load of that cell
+			if ld, isL := x.(*ssa.UnOp); isL && ld.Op == token.MUL {
+				if refs := v.Referrers(); refs != nil {
+					for _, u := range *refs {
+						if st, isS := u.(*ssa.Store); isS && st.Val == v && st.Addr == ld.X {
+							same = true
+						}
+					}
+				}
+			}
+		}
+		if !same {
+			return false
+		}
+		isNil := bo.Op == token.EQL == cd.Pol
+		return isNil == wantNil
+	}
+	for _, f := range c.Funcs {
+		pk := c.PkgOf(f)
+		if !(pk == "services" || pk == "actions" || pk == "grpc" || pk == "faults" || pk == "filter") || c.testSupport(f) || c.EntShape().isGenerated(f) {
+			continue
+		}
+		for _, b := range f.Blocks {
+			for _, in := range b.Instrs {
+				call, ok := in.(*ssa.Call)
+				if !ok {
+					continue
+				}
+				tup, ok := call.Type().(*types.Tuple)
+				if !ok || tup.Len() < 2 || !isErrorType(tup.At(tup.Len()-1).Type()) || call.Referrers() == nil {
+					continue
+				}
+				var errV ssa.Value
+				var vals []*ssa.Extract
+				for _, u := range *call.Referrers() {
+					ex, isE := u.(*ssa.Extract)
+					if !isE {
+						continue
+					}
+					if ex.Index == tup.Len()-1 {
+						errV = ex
+						continue
+					}
+					switch ex.Type().Underlying().(type) {
+					case *types.Pointer, *types.Interface:
+						vals = append(vals, ex)
+					}
+				}
+				if len(vals) == 0 {
+					continue
+				}
+				nCalls++
+				for _, v0 := range vals {
+					if v0.Referrers() == nil {
+						continue
+					}
+					// the result itself, and the loads of a local it is spilled into (a variable a closure captures)
+					// when that local has no other store in this function
+					users := []ssa.Instruction{}
+					aliases := map[ssa.Value]bool{v0: true}
+					users = append(users, *v0.Referrers()...)
+					for _, u := range *v0.Referrers() {
+						st, isS := u.(*ssa.Store)
+						if !isS || st.Val != ssa.Value(v0) {
+							continue
+						}
+						al, isA := st.Addr.(*ssa.Alloc)
+						if !isA || al.Referrers() == nil {
+							continue
+						}
+						nst := 0
+						for _, au := range *al.Referrers() {
+							if _, isSt := au.(*ssa.Store); isSt {
+								nst++
+							}
+						}
+						if nst != 1 {
+							continue
+						}
+						for _, au := range *al.Referrers() {
+							if ld, isL := au.(*ssa.UnOp); isL && ld.Op == token.MUL && ld.Referrers() != nil {
+								aliases[ld] = true
+								users = append(users, *ld.Referrers()...)
+							}
+						}
+					}
+					var v ssa.Value = v0
+					for _, u := range users {
+						deref := false
+						switch x := u.(type) {
+						case *ssa.FieldAddr:
+							deref = aliases[x.X]
+						case *ssa.UnOp:
+							deref = x.Op == token.MUL && aliases[x.X]
+						case ssa.CallInstruction:
+							deref = x.Common().IsInvoke() && aliases[x.Common().Value]
+						}
+						if !deref {
+							continue
+						}
+						nDeref++
+						ui := u.(ssa.Instruction)
+						checked := false
+						for _, cd := range edgeConds(ui.Block()) {
+							if errV != nil && isNilCmp(cd, errV, true) || isNilCmp(cd, v, false) {
+								checked = true
+							}
+							for a := range aliases {
+								if isNilCmp(cd, a, false) {
+									checked = true
+								}
+							}
+						}
+						if !checked && errV != nil && ui.Block() == b {
+							// same block as the call: nothing can have been tested
+						}
+						r.Check("C16.9", fmt.Sprintf("C16.9:result-used-after-error-check:%s@%s", calleeName(call), c.Key(top(f))), ui.Pos(), checked, "",
+							fmt.Sprintf("the result of %s is dereferenced on a path where neither its error was found nil nor the result tested for nil: when the call fails the result is nil and the dereference panics — no recovery interceptor or goroutine recover exists, the process terminates", calleeName(call)))
+					}
+				}
+			}
+		}
+	}
+	r.Floor("C16.9", nDeref, 20)
+	_ = nCalls
+}
